@@ -138,7 +138,13 @@ def check_definition(idx: int, members, t: Tally) -> List[Violation]:
             pass
     except Exception as e:
         bad("members", f"{type(e).__name__}: {e}")
-    for attr, val in ((members[0][0], 5), ("NEW", 1), ("_value_map_", {})):
+    first = E(members[0][1])
+    shown = (str(first), repr(first), hash(first), first == members[0][1])
+    for attr, val in ((members[0][0], 5), ("NEW", 1), ("_value_map_", {}), ("_member_map_", {}),
+                      ("__str__", lambda self: "hijacked"), ("__repr__", lambda self: "hijacked"),
+                      ("__eq__", lambda self, o: False), ("__hash__", lambda self: 0),
+                      ("__int__", lambda self: 0), ("__doc__", "changed"), ("__members__", {}),
+                      ("__deepcopy__", lambda self, memo: 0), ("__reduce_ex__", lambda self, p: (int, (0,)))):
         try:
             setattr(E, attr, val)
             bad("class-mutable", f"setattr(E, {attr!r}) succeeded")
@@ -155,6 +161,11 @@ def check_definition(idx: int, members, t: Tally) -> List[Violation]:
         bad("class-mutable", f"delattr(E) raised {type(e).__name__}")
     if E(members[0][1]).name != canon_name[members[0][1]]:
         bad("class-mutable", "definition changed after mutation attempts")
+    try:
+        if (str(first), repr(first), hash(first), first == members[0][1]) != shown:
+            bad("class-mutable", "members print / hash / compare differently after mutation attempts on the class")
+    except Exception as e:
+        bad("class-mutable", f"member unusable after mutation attempts: {type(e).__name__}: {e}")
     for v in PROBE:
         if v in canon_name:
             continue
